@@ -11,20 +11,49 @@ RESTRS = ["normal", "minimal", "leaves..tutorial1", "leaves..tutorial2", "normal
           "nonleaves..on_customize", "leaves..quicktest", "normal..nongui", "leaves..tutorial_get..implicit_both",
           "all..internal..linux_virtuser", "leaves..tutorial_gui..client_clicked", "normal,minimal", "leaves..tutorial1,tutorial3.no_remote"]
 NETS = ["net1", "net0", "net1 net2", "net1 net2 net3", "cluster1.net6 cluster1.net7", "net1 cluster1.net6", "cluster1.net6 cluster2.net6",
-        "net2 net4"]
+        "net2 net4", "net5 net1", "net1 net5", "net5 net3 net1", "net3 net5"]          # net3 and net5 restrict the vm variants they support
 VMRS = [graphx.VMR, {"vm1": "only Fedora\n", "vm2": "only Win7\n", "vm3": "only Kali\n"},
-        {"vm1": "only CentOS\n", "vm2": "only Win10\n", "vm3": "only Ubuntu\n"}]
+        {"vm1": "only CentOS\n", "vm2": "only Win10\n", "vm3": "only Ubuntu\n"}, {}, {"vm1": "only Fedora\n"}]   # {}: multi-variant products
 FAIL_NAMES = {1: "cycle-or-rank", 2: "not-exactly-one-root-or-unreachable", 3: "edge-not-on-both-ends", 4: "duplicate-identity",
               5: "producer-missing-duplicated-or-spurious", 6: "net-or-vms-mismatch", 7: "clones-inconsistent", 8: "duplicate-name",
               9: "bridge-asymmetric-or-unshared", 10: "bridge-missing"}
 
 
-def family(rng, n, mode):
+# tests selected together: single- and multi-producer dependants with one, the other or both of their producers
+COMBINED = [("leaves..tutorial_get..explicit_noop", "leaves..tutorial_get..implicit_both"),
+            ("leaves..tutorial_gui..client_clicked", "leaves..tutorial_get..implicit_both"),
+            ("leaves..tutorial_get..explicit_clicked", "leaves..tutorial_finale"),
+            ("leaves..tutorial_gui..client_noop", "leaves..tutorial_finale"),
+            ("leaves..tutorial1", "leaves..tutorial_get..implicit_both"),
+            ("leaves..tutorial_get..explicit_noop", "leaves..tutorial_gui"),
+            ("nonleaves..connect", "leaves..tutorial3"),
+            ("leaves..tutorial_gui", "leaves..tutorial_get"),
+            ("leaves..quicktest", "leaves..tutorial2"),
+            ("leaves..tutorial_get..explicit_clicked", "leaves..tutorial_get..implicit_both")]
+
+
+# selections from the extended scratch suite (graphx.EXTRA_TESTS): two-object dependencies
+EXT_RESTRS = ["ext:leaves..xt_both", "ext:leaves..xt_mixed", "ext:leaves..xt_chain", "ext:leaves", "ext:leaves..xt_both,leaves..tutorial3",
+              "ext:leaves..xt_mixed,leaves..xt_both"]
+
+
+CORPUS = [("leaves..tutorial1", "net5 net1", {}),                      # restricted worker first: fixed fc23fe8
+          ("leaves..tutorial_gui", "net5 net3 net1", {"vm1": "only Fedora\n"})]
+
+
+def family(rng, n, mode, thorough=False):
     jobs = []
     combos = [(r, nets, v) for r in RESTRS for nets in NETS for v in range(len(VMRS))]
     rng.shuffle(combos)
     for r, nets, v in combos[:n]:
         jobs.append((r, nets, VMRS[v], mode, rng.randrange(10 ** 6), None))
+    # corpus of selections that exposed defects before (run first in every tier)
+    for r, nets, vmr in CORPUS:
+        jobs.append((r, nets, vmr, mode, 1, None))
+    ext = [(r, nets) for r in EXT_RESTRS for nets in ("net1", "net1 net2", "net1 cluster1.net6", "net1 net2 net3")]
+    rng.shuffle(ext)
+    for r, nets in ext[: (len(ext) if thorough else 3)]:
+        jobs.append((r, nets, graphx.VMR, mode, rng.randrange(10 ** 6), None))
     return jobs
 
 
@@ -34,15 +63,104 @@ def run_jobs(ctx, jobs):
         return list(ex.map(graphx.parse_job, jobs))
 
 
+UPDATES = [(("vm1",), "net1 net2 net4", "customize", "connect"), (("vm1",), "net1 net2 net3", "install", "customize"),
+           (("vm2",), "net1 net2", "customize", "customize"), (("vm1", "vm3"), "net1 net2 net3", "customize", "on_customize"),
+           (("vm1",), "cluster1.net6 cluster1.net7 cluster2.net6", "install", "connect"), (("vm3",), "net1 net2 net3 net4", "customize", "on_customize")]
+
+
+def bridging_part(ctx, replay):
+    """C09: bridge_with_node against Model/Bridge.v, and the graphs the update tool bridges in pairs"""
+    from harness import bridgex
+    rng = ctx.rng
+    cases = []
+    if replay and "ops" in replay.get("data", {}):
+        d = replay["data"]
+        import random
+
+        class Fixed(random.Random):
+            pass
+        nodes = bridgex.make_class(d["k"])
+        c = bridgex.one_case(rng, "random")
+        # replay exactly: rebuild from the stored operations
+        nodes = bridgex.make_class(d["k"])
+        for a, b in d["ops"]:
+            nodes[a].bridge_with_node(nodes[b])
+        idx = {id(n): i for i, n in enumerate(nodes)}
+        links = [[idx[id(m)] for m in n.bridged_nodes] for n in nodes]
+        cls = [min(j for j in range(d["k"]) if nodes[j]._dropped_setup_nodes is nodes[i]._dropped_setup_nodes) for i in range(d["k"])]
+        from harness.common import cnat
+        cases = [{"k": d["k"], "shape": d.get("shape", "random"), "ops": [tuple(o) for o in d["ops"]], "links": links, "classes": cls,
+                  "must_unify": d.get("must_unify", False), "registers_consistent": True,
+                  "term": cpair(cnat(d["k"]), clist([cpair(cnat(a), cnat(b)) for a, b in d["ops"]]),
+                                clist([clist([cnat(x) for x in l]) for l in links]), clist([cnat(x) for x in cls]))}]
+    elif not replay:
+        n = 600 if ctx.thorough else 150
+        cases = [bridgex.one_case(rng, ("random", "parser", "update")[k % 3]) for k in range(n)]
+    if cases:
+        res = coq_failing(ctx, "Model.Bridge Check.Bridge", "bridge_case", [c["term"] for c in cases], ["bridge_corr", "bridge_unified"],
+                          shard=max(1, len(cases) // 8 + 1), tag="bridge")
+        ctx.obligation("correspondence:TestNode.bridge_with_node", "correspondence", not res["bridge_corr"],
+                       f"{len(res['bridge_corr'])} of {len(cases)} bridging sequences disagree with Model/Bridge.v")
+        split = [k for k in set(res["bridge_unified"]) if cases[k]["must_unify"]]
+        incons = [k for k, c in enumerate(cases) if not c["registers_consistent"]]
+        ctx.obligation("monitor:bridged-class-shares-registers", "monitor", not split and not incons,
+                       f"{len(split)} parser/update-shaped bridging sequences leave the class on several register sets; {len(incons)} alias the four registers differently")
+        for k in sorted(split)[:1] + incons[:1]:
+            c = cases[k]
+            ctx.fail("C09:bridged-nodes-do-not-share-registers", f"after bridging in the {c['shape']} order, nodes of one class hold different visit registers: classes {c['classes']}",
+                     {"k": c["k"], "shape": c["shape"], "ops": c["ops"], "links": c["links"], "classes": c["classes"], "must_unify": c["must_unify"]}, True)
+        for k in [k for k in res["bridge_corr"] if k not in split][:1]:
+            c = cases[k]
+            ctx.fail("C09:bridging:correspondence", "bridge_with_node differs from Model/Bridge.v on a sequence of calls",
+                     {"k": c["k"], "shape": c["shape"], "ops": c["ops"], "links": c["links"], "classes": c["classes"], "must_unify": False,
+                      "obligation": "correspondence:TestNode.bridge_with_node"}, False)
+        ctx.count(len(cases), sum(1 for c in cases if c["k"] >= 3))
+        ctx.coverage["bridging_sequences"] = {sh: sum(1 for c in cases if c["shape"] == sh) for sh in ("random", "parser", "update")}
+    # graphs assembled by the update tool
+    ups = []
+    if replay and "update" in replay.get("data", {}):
+        d = replay["data"]
+        ups = [(tuple(d["update"][0]), d["nets"], d["update"][1], d["update"][2])]
+    elif not replay:
+        ups = list(UPDATES) if ctx.thorough else rng.sample(UPDATES, 3)
+    if ups:
+        jobs = [(vms, nets, fr, to, rng.randrange(10 ** 6), ctx.work) for vms, nets, fr, to in ups]
+        with concurrent.futures.ProcessPoolExecutor(max_workers=6) as ex:
+            outs = list(ex.map(graphx.update_job, jobs))
+        errs = [o for o in outs if "error" in o]
+        ctx.obligation("update-tool:graph-captured", "monitor", not errs, "; ".join(o["error"][:80] for o in errs[:2]))
+        good = [o for o in outs if "graph" in o]
+        if good:
+            terms = [cpair(o["graph"], clist(o["workers"])) for o in good]
+            res = coq_failing(ctx, IMPORTS, "copies_case", terms, ["c09_bridges"], shard=1, tag="upd", timeout=900)
+            ctx.obligation("checker:update-tool-graph-bridged", "monitor", not res["c09_bridges"],
+                           f"{len(res['c09_bridges'])} of {len(good)} graphs assembled by the update tool are not completely / symmetrically bridged with shared registers")
+            for k in res["c09_bridges"][:1]:
+                o = good[k]
+                ctx.fail("C09:update-tool-copies-unlinked", f"the graph the update tool builds for {o['restr']} on {o['nets']} has worker copies that are not linked or do not share their registers",
+                         {"update": o["update"], "nets": o["nets"], "info": o["info"]}, True)
+            ctx.count(len(good), sum(1 for o in good if len(o["info"]["workers"]) > 2))
+        ctx.coverage["update_tool_graphs"] = [{"what": o["restr"], "nets": o["nets"], "nodes": o.get("info", {}).get("nodes")} for o in outs]
+
+
 def run_property(ctx, prop, replay=None):
     rng = ctx.rng
     mode = {"C06": "plain", "C07": "declared", "C09": "lazy"}[prop]
+    if prop == "C09":
+        bridging_part(ctx, replay)
+        if replay and ("ops" in replay.get("data", {}) or "update" in replay.get("data", {})):
+            return
     if replay and "restr" in replay.get("data", {}):
         d = replay["data"]
-        jobs = [(d["restr"], d["nets"], d["vmr"], mode, 1, None)]
+        jobs = [(d["restr"], d["nets"], d["vmr"], "subsets" if d.get("subsets") else mode, 1, None)]
     else:
         n = {"C06": 12, "C07": 12, "C09": 8}[prop] * (8 if ctx.thorough else 1)
-        jobs = family(rng, n, mode)
+        jobs = family(rng, n, mode, ctx.thorough)
+        if prop == "C07":
+            pairs = [(a + "," + b, nets) for a, b in COMBINED for nets in ("net1", "net1 net2")]
+            if not ctx.thorough:
+                pairs = pairs[:2] + rng.sample(pairs[2:], 4)
+            jobs += [(r, nets, graphx.VMR, "subsets", 1, None) for r, nets in pairs]
         if prop == "C09":
             jobs += [(r, nets, graphx.VMR, "twice", 1, None) for r, nets in (("normal", "net1 net2"), ("leaves..tutorial_get", "net1"))]
     outs = run_jobs(ctx, jobs)
@@ -67,6 +185,14 @@ def run_property(ctx, prop, replay=None):
             ctx.fail(f"{prop}:graph:{name}", f"the parsed graph for '{o['restr']}' on {o['nets']} is not well formed: {[FAIL_NAMES.get(c, c) for c in codes]}",
                      {"restr": o["restr"], "nets": o["nets"], "vmr": o["vmr"], "failed_checks": [FAIL_NAMES.get(c, c) for c in codes], "info": o["info"]}, True)
     if prop == "C07":
+        sub = [o for o in good if o["mode"] == "subsets"]
+        sbad = [o for o in sub if o.get("subset_bad")]
+        ctx.obligation("monitor:dependencies-independent-of-selection", "monitor", not sbad,
+                       f"{len(sbad)} of {len(sub)} combined selections give a test other dependencies than it has when selected alone")
+        for o in sbad[:1]:
+            ctx.fail("C07:dependencies-depend-on-selection", f"in '{o['restr']}' on {o['nets']} a test has other dependencies than when it is selected alone: {o['subset_bad'][:2]}",
+                     {"restr": o["restr"], "nets": o["nets"], "vmr": o["vmr"], "subsets": True, "mismatches": o["subset_bad"]}, True)
+        ctx.coverage["combined_selections"] = [{"restr": o["restr"], "nets": o["nets"]} for o in sub]
         bad = [o for o in good if o.get("declared_bad")]
         ctx.obligation("monitor:declarations-preserved", "monitor", not bad, f"{len(bad)} graphs with a node whose get/set parameters differ from the flat test's")
         for o in bad[:1]:
